@@ -18,8 +18,8 @@ def M44.setEulerAngles {α : Type} [Add α] [Mul α] [Neg α] [OfNat α 0] [OfNa
   ⟨(t2609 * t2610), (t2612 * t2610), (-t2613), (0 : α), (((-t2612) * t2611) + (t2618 * t2614)), ((t2609 * t2611) + (t2623 * t2614)), (t2610 * t2614), (0 : α), ((t2612 * t2614) + (t2618 * t2611)), (((-t2609) * t2614) + (t2623 * t2611)), (t2610 * t2611), (0 : α), (0 : α), (0 : α), (0 : α), (1 : α)⟩
 
 /-- extracted from the C++ template at T = Sym; 2 path(s) -/
-def M44.setAxisAngle {α : Type} [Add α] [Sub α] [Mul α] [Div α] [Neg α] [LT α] [LE α] [DecidableLT α] [DecidableLE α] [DecidableEq α] [OfNat α 0] [OfNat α 1] [OfNat α 2] (tmin : α) (sqrt : α → α) (sin : α → α) (cos : α → α) (m : M44 α) (axis : V3 α) (angle : α) : (M44 α) :=
-  let t2640 := (V3.length tmin sqrt ⟨axis.x, axis.y, axis.z⟩)
+def M44.setAxisAngle {α : Type} [Add α] [Sub α] [Mul α] [Div α] [Neg α] [LT α] [LE α] [DecidableLT α] [DecidableLE α] [DecidableEq α] [OfNat α 0] [OfNat α 1] [OfNat α 2] (tmin : α) (tmax : α) (sqrt : α → α) (sin : α → α) (cos : α → α) (m : M44 α) (axis : V3 α) (angle : α) : (M44 α) :=
+  let t2640 := (V3.length tmin tmax sqrt ⟨axis.x, axis.y, axis.z⟩)
   let t2641 := (sin angle)
   let t2642 := (cos angle)
   let t2643 := ((1 : α) - t2642)
